@@ -469,13 +469,19 @@ class HintSane(object, metaclass=_HintSaneMetaclass):
         # hints. Doing so is also required, as raising a non-human-readable
         # "TypeError" here would prevent this hint from subsequently being
         # validated (and thus rejected with a human-readable exception).
+        #
+        # Note that the type parameter lookup table is itself unhashable when
+        # mapping a type parameter to an unhashable child hint (e.g.,
+        # "typing.ParamSpec.args" objects under Python <= 3.12, as in the
+        # invalid hint "MuhGeneric[P.args]"). Fall back to hashing this table by
+        # its object identifier as well.
         except TypeError:
             self._hash = hash((
                 id(hint),
                 hint_recursable_to_depth,
                 is_check_expr_cacheable,
                 is_hint_parent_pep484585_subclass,
-                typearg_to_hint,
+                id(typearg_to_hint),
             ))
 
     # ..................{ DUNDERS                            }..................
